@@ -45,6 +45,7 @@ func init() {
 				{Name: "random-schedules", Variant: "plain", Cases: nr, Run: c08random, CaseTimeout: 10 * time.Minute, Required: []string{"schedules"}},
 				{Name: "threads", Variant: "race", Cases: ns, Run: c08threads, CaseTimeout: 10 * time.Minute, Required: []string{"thread_ops"}},
 				{Name: "sweep", Variant: "plain", Cases: 8, Shards: 4, Run: c08sweep, Required: []string{"sweep_ids"}},
+				{Name: "long-history", Variant: "plain", Cases: 2, Shards: 2, Run: c08longHistory, CaseTimeout: 40 * time.Minute, Required: []string{"long_history_calls"}},
 			}
 		},
 	})
@@ -599,4 +600,48 @@ func c08sweep(c *runner.Ctx, i int) {
 		c.Add("sweep_ids", int64(n))
 	}
 	c.Eval(runner.H("sweep", proto), true)
+}
+
+// c08longHistory: one generator used for longer than any counter inside it can count: 2^32 and some sequential
+// acquire/release pairs (a connection at 20k requests/s gets there in two and a half days). Every call must hand out a
+// valid id - the generator is never more than one id short of empty.
+func c08longHistory(c *runner.Ctx, i int) {
+	proto := []int{4, 2}[i%2]
+	n := capOf(proto) - 1
+	g := gocql.VerifNewStreams(proto)
+	total := uint64(1)<<32 + 8*uint64(capOf(proto))
+	// a few ids stay held throughout, so that the scan has something to step over
+	var held []int
+	for k := 0; k < 3; k++ {
+		id, ok := g.GetStream()
+		if !ok {
+			c.Violation("C08:long-history:exhaustion-with-free-ids", "GetStream failed on a fresh generator", nil)
+			return
+		}
+		held = append(held, id)
+	}
+	for k := uint64(0); k < total; k++ {
+		id, ok := g.GetStream()
+		if !ok {
+			c.Violation("C08:long-history:exhaustion-with-free-ids", fmt.Sprintf("GetStream number %d on one generator reported exhaustion although %d of %d ids are free", k+4, g.Available(), n), map[string]interface{}{"proto": proto, "call": k + 4})
+			return
+		}
+		if id <= 0 || id > n || id == held[0] || id == held[1] || id == held[2] {
+			c.Violation("C08:long-history:bad-id", fmt.Sprintf("GetStream number %d returned %d (valid 1..%d, held %v)", k+4, id, n, held), map[string]interface{}{"proto": proto, "call": k + 4})
+			return
+		}
+		if !g.Clear(id) {
+			c.Violation("C08:release-reports-not-in-use", fmt.Sprintf("Clear(%d) of the id just handed out (call %d) returned false", id, k+4), nil)
+			return
+		}
+		if k&(1<<22-1) == 0 {
+			c.Touch()
+			if a := g.Available(); a != n-3 {
+				c.Violation("C08:available-count", fmt.Sprintf("Available() = %d with 3 ids held, want %d (after %d calls)", a, n-3, k+4), nil)
+				return
+			}
+		}
+	}
+	c.Add("long_history_calls", int64(total))
+	c.Eval(runner.H("long-history", proto), true)
 }
